@@ -229,6 +229,9 @@ func c16HeaderScratch(p *load.Program) bool {
 				if strings.HasPrefix(s, "x.header[") {
 					filled[s] = true
 				}
+				if s == "x.header" { // the whole array passed by address
+					filled["x.header[:]"] = true
+				}
 			case "write":
 				s := clean(an.Shape(c.Call.Args[len(c.Call.Args)-1]))
 				if strings.HasPrefix(s, "x.header[") {
@@ -744,7 +747,7 @@ func c16Framing(p *load.Program, r *oblig.Report) {
 	hs := returnShapes(isHdr)
 	okIs := false
 	for _, s := range hs {
-		if strings.Contains(s, "bytes.Equal(src[:8],xerialHeader[:])") {
+		if strings.Contains(s, "bytes.Equal(src[:8],xerialHeader[:])") || (strings.Contains(s, "bytes.Equal(") && strings.Contains(s, "[:8],xerialHeader[:])")) {
 			okIs = true
 		}
 	}
@@ -755,6 +758,16 @@ func c16Framing(p *load.Program, r *oblig.Report) {
 			if k, isK := an.ConstInt(ci.Y); isK && k == 16 {
 				lenOK = true
 			}
+		}
+	}
+	if len(isHdr.Params) == 1 {
+		// a parameter of array type carries its length statically
+		t := isHdr.Params[0].Type()
+		if pt, isP := t.Underlying().(*types.Pointer); isP {
+			t = pt.Elem()
+		}
+		if arr, isArr := t.Underlying().(*types.Array); isArr && arr.Len() >= 16 {
+			lenOK = true
 		}
 	}
 	r.Check(okIs && lenOK, rule, "compress/snappy.isXerialHeader compares the first 8 bytes with the magic and requires 16 bytes", p.Pos(isHdr.Pos()), "len(src) >= 16 && bytes.Equal(src[:8], xerialHeader[:])", strings.Join(hs, " ;; "))
